@@ -10,7 +10,7 @@ from typing import Any, Dict, List, Optional, Tuple
 
 from ..elements import (COORDS, ElementInfo, as_poly, load_elements,
                         load_refdoms, RefdomInfo)
-from ..interp import Arr, Interp, Obj, PyFunc, Raised, Unsupported
+from ..interp import ClassRef, Arr, Interp, Obj, PyFunc, Raised, Unsupported
 from ..model import staged, AnalysisError, Model, src, walk_no_nested
 from ..poly import Poly
 
@@ -62,14 +62,14 @@ NONCONFORMING = {"ElementTriCR", "ElementTetCR"}
 SKIP = {"ElementTriN3": "gbasis overridden with run-time index swaps"}
 
 
-def _rankings(rd: RefdomInfo, k: int, all_ranks: bool = True
-              ) -> List[Dict[int, int]]:
+def _rankings(rd: RefdomInfo, k: int, all_ranks: bool = True,
+              unsorted_tri: bool = False) -> List[Dict[int, int]]:
     """admissible rankings of the vertices of facet k (vertex -> rank).
     For quadrilateral faces only the induced frame matters unless the
     family has rank-dependent signs: ``all_ranks=False`` returns one
     ranking per frame (the dihedral 8)."""
     verts = list(dict.fromkeys(rd.facets[k]))
-    if rd.name == "RefTri":
+    if rd.name == "RefTri" and not unsorted_tri:
         # cells stored sorted: global rank order = local index order
         order = sorted(verts)
         return [{v: r for r, v in enumerate(order)}]
@@ -180,8 +180,9 @@ def _hcurl_sign(model, e: ElementInfo, i: int, rank_all: Dict[int, int]):
             if name == "shape":
                 return (rd.nnodes, 1)
             raise Unsupported("t." + name)
-    refd = Obj(None, {"facets": rd.facets, "edges": rd.edges,
-                      "nfacets": rd.nfacets})
+    # the real reference-domain class, so that identity / equality tests
+    # against RefTri etc. in orient() take the branch they take at run time
+    refd = ClassRef(rd.cls)
     mesh = Obj(None, {"t": TT(), "refdom": refd,
                       "dim": PyFunc(lambda a, k, n: rd.dim)})
     mapping = Obj(None, {"mesh": mesh})
@@ -249,7 +250,13 @@ def _trace_rule(model, rep, els, refdoms):
         for k in range(rd.nfacets):
             fverts = set(rd.facets[k])
             N = _outward_normal(rd, k)
-            for rank in _rankings(rd, k, e.family == "hcurl"):
+            # triangle meshes with sorting switched off by the caller are
+            # outside the claim only for elements with several DOFs per
+            # facet; with at most one, every vertex order is admissible
+            fd = e.counts.get("facet_dofs")
+            unsorted_tri = rd.name == "RefTri" and isinstance(fd, int) \
+                and fd <= 1
+            for rank in _rankings(rd, k, e.family == "hcurl", unsorted_tri):
                 o, vecs, params = _frame(rd, k, rank)
                 pos = _positions(rd, k, rank)
                 # ranks for the remaining vertices (needed by orient only
@@ -528,6 +535,11 @@ _TRI = "skfem/mesh/mesh_tri_1.py"
 _RET = ("        return replace(\n            self,\n            "
         "doflocs=doflocs,\n            t=t,\n            _boundaries=None,")
 MUTANTS = [
+    ("H(curl) orientation skipped on every 2-D cell (assumes ascending "
+     "edges)",
+     ("skfem/element/element_hcurl.py",
+      "        if mapping.mesh.dim() == 2 and ix >= self.refdom.nfacets:",
+      "        if mapping.mesh.dim() == 2:"), "C03-R1"),
     ("adaptive refinement returns a mesh based on the unsorted helper",
      (_TRI, _RET, _RET.replace("            self,\n",
                                "            sorted_mesh,\n")), "C03-R2"),
